@@ -8,6 +8,7 @@ import Depccg.OpsGlue
 import Depccg.OpsTree
 import Depccg.OpsXml
 import Depccg.OpsMore
+import Depccg.OpsLazy
 
 namespace Depccg
 namespace Ops
@@ -151,6 +152,9 @@ def dispatch (st : State) (line : String) : State × String :=
     if let some r := OpsXml.dispatch op ts then (st, r) else
     if op == "retrieve" then (st, OpsMore.retrieveOp ts) else
     if op == "gluetable" then (st, OpsMore.gluetableOp ts) else
+    if op == "lazyrun" then
+      (st, OpsLazy.lazyOp (fun n => if n == "-" then some none else (lookupNamed st.seen n).map some)
+        (fun n => lookupNamed st.unary n) ts) else
     if let some r := OpsMore.dispatch op ts then (st, r) else
     match catOps op ts with
     | some r => (st, r)
